@@ -71,7 +71,10 @@ func VerifFragWrite(capI, capC int, ctype byte, ops []VerifWOp) (panicked interf
 			panicked = r
 		}
 	}()
-	w := newFragmentingWriter(NullLogger, s, ChecksumType(ctype).New())
+	// The checksum is wrapped so that Release() immediately does what the pool's next owner
+	// would do (Reset + unrelated data): any use of the checksum after its release shows up
+	// as a wrong checksum on the wire.
+	w := newFragmentingWriter(NullLogger, s, &verifPoisonChecksum{Checksum: ChecksumType(ctype).New()})
 	for _, op := range ops {
 		var err error
 		switch op.Kind {
@@ -241,3 +244,10 @@ func (r *verifOneReceiver) recvNextFragment(initial bool) (*readableFragment, er
 	return r.frag, nil
 }
 func (r *verifOneReceiver) doneReading(err error) {}
+
+type verifPoisonChecksum struct{ Checksum }
+
+func (c *verifPoisonChecksum) Release() {
+	c.Checksum.Reset()
+	c.Checksum.Add([]byte("released: owned by somebody else now"))
+}
